@@ -1060,7 +1060,7 @@ CREFSED = ('s/\\\\cref{ylab}/ycrefig~(7)/g\n'
            's/\\\\cref{yl2}/ycreq (1) to (2)/g\n'
            's/\\\\crefrange{ylab}{yl2}/ycrefigs~(7) to~(9)/g\n'
            's/\\\\cref\\*{ylab}/ycrstar \\\\LaTeX\\\\ (7)/g\n')
-GLSDEFS = ('\\gls@defglossaryentry{ylab}%\n{%\nname={yglsname},%\ntext={yglstext yglstwo},%\nplural={yglsplural yglsmany},%\n'
+GLSDEFS = ('\\gls@defglossaryentry{ylab}%\n{%\nname={yglsname},%\ntext={yglstext\n                    yglstwo},%\nplural={yglsplural   yglsmany},%\n'
            'description={yglsdescr},%\nfirst={yglsfirst}%\n}%\n')
 
 
